@@ -76,7 +76,7 @@ def run_shard(spec, ctx):
         for rep in range(3):
             algo_name = ALGOS[(spec["k"] + i + rep) % 3]
             n_sub = int(rng.choice([1, 2, 3, 5, 8, 13, 30]))
-            id_style = str(rng.choice(["str", "numstr", "int"]))
+            id_style = str(rng.choice(["str", "numstr", "int", "shuffled"] if not events else ["str", "numstr", "int"]))  # shuffled: order of appearance is not the sorted order
             try:
                 df = gen.cohort(rng, n_ind=n_sub, n_feat=dim, missing=str(rng.choice(["mcar", "heavy", "none"])), events=events,
                                 one_visit_ok=not events, binary=binary, id_style=id_style)
